@@ -110,7 +110,7 @@ class Batch:
 
 # ---------------------------------------------------------------------------- campaign
 
-BOUNDARY_WORDS = [0, 1, 2, 3, 0xFF, 0x10000, 0x7FFFFFFF, 0x80000000, 0xFFFFFFFE, 0xFFFFFFFF]
+BOUNDARY_WORDS = [0, 1, 2, 3, 64, 0xFF, 4096, 0x10000, 0x7FFFFFFF, 0x80000000, 0x80000002, 0xFFFFFFFE, 0xFFFFFFFF]
 
 
 def tools_hash():
